@@ -4,6 +4,19 @@ import PlumVerif.Generated.EventsTables
 C13 — the event table and the stored data, over ALL histories of the public entry points
 (`Model/EventsTable.lean`): create_event / set_event / store (a finished dispatch) / load / wait_for / get /
 resume / time-out / cancellation, in any order.
+
+What is content and what is not (round-8 audit, item 13):
+* `data_is_an_outcome` holds BY CONSTRUCTION of the ghost `stores` (Model/EventsTable appends to it exactly where
+  `data` is written, in `store`); its content is `event_manager_api_pinned`: reflection finds no OTHER public method of
+  `EventManager` that writes `data`, so the `Op`s are all the writers the class offers.
+* DISCLOSED, outside `Op`: `data` is a public attribute and the `events` property returns the live dict.  A client that
+  writes THROUGH them (`em.data[k] = v`, `del em.data[k]`, `em.events[k] = …`, `del em.events[k]`, `em.data = {}`) is not
+  a history of this machine; every theorem here assumes clients use the dicts read-only (as the library itself does).
+* `load_is_stores` is definitional (`foldl` vs `run ∘ map`).  `load(data)` = one store per item IN ORDER holds only for
+  names WITHOUT subscribers: `load` gathers one `dispatch` per item, a dispatch with callbacks suspends in them, and
+  then the stores happen in the order the callback walks finish (those histories are the `store` ops of this machine in
+  THAT order, the walks themselves are Model/Events).  The hypothesis "no name of `kvs` has a subscriber" is part of the
+  meaning of `Op.load` (its comment in the model) and is repeated in the docstring of `load_is_stores`.
 -/
 namespace PlumVerif.C13T
 
@@ -176,7 +189,10 @@ theorem step_dataOk (s : St) (o : Op) (h : DataOk s) : DataOk (step s o) := by
   | cancel j => exact h
 
 /-- **`data` never holds a value that was not the outcome of a dispatch or a load**: for every history, whatever
-`data[name]` / `get_nowait` / attribute access yields was stored by a finished dispatch (or load) for that name -/
+`data[name]` / `get_nowait` / attribute access yields was stored by a finished dispatch (or load) for that name.
+By construction of the ghost `stores` (appended exactly where `data` is written); the content is
+`event_manager_api_pinned` (no other public writer).  Assumes clients do not write through the public `data` attribute
+or the dict returned by `events` (such writes are outside `Op`). -/
 theorem data_is_an_outcome (ops : List Op) (n v : Nat) (h : getNowait (run init ops) n = some v) :
     (n, v) ∈ (run init ops).stores := by
   have : ∀ (ops : List Op) (s : St), DataOk s → DataOk (run s ops) := by
@@ -206,7 +222,11 @@ theorem only_dispatch_and_load_store (s : St) (o : Op)
   | expire j => exact ⟨rfl, rfl⟩
   | cancel j => exact ⟨rfl, rfl⟩
 
-/-- `load` is one store per item, in order: the last value of a name wins, every value is recorded -/
+/-- `load` is one store per item, in order: the last value of a name wins, every value is recorded.
+HYPOTHESIS carried by `Op.load` (not expressible in this machine, which has no subscriber table): none of the names in
+`kvs` has a subscriber.  With subscribers `load` gathers suspended dispatches and the stores happen in the order their
+callback walks finish: such a history is a sequence of `.store` ops in that order, not a `.load`.  Definitional
+(`foldl` = `run ∘ map`). -/
 theorem load_is_stores (kvs : List (Nat × Nat)) (s : St) :
     step s (.load kvs) = run s (kvs.map fun kv => .store kv.1 kv.2) := by
   simp only [step]
